@@ -1,6 +1,7 @@
 package checks
 
 import (
+	"strings"
 	"math/rand"
 	"runtime"
 	"sync"
@@ -35,6 +36,34 @@ func (p *probeStats) point(name string) {
 	atomic.AddInt64(v.(*int64), 1)
 }
 
+// sendDelayUS > 0: the Send hook pauses that long before every send (set and reset by individual cases).
+var sendDelayUS int32
+
+// Error-send gate: while gateErrorSends == 1 the Send hook holds every sender that comes from sendError at
+// sendGate (signalling hit on the first one) until open is closed.
+type errGate struct {
+	hit, open chan struct{}
+	hitOnce   sync.Once
+}
+
+var sendGate atomic.Value // *errGate
+var gateErrorSends int32
+
+func callerIs(fn string) bool {
+	var pcs [8]uintptr
+	n := runtime.Callers(3, pcs[:])
+	fr := runtime.CallersFrames(pcs[:n])
+	for {
+		f, more := fr.Next()
+		if strings.HasSuffix(f.Function, "."+fn) {
+			return true
+		}
+		if !more {
+			return false
+		}
+	}
+}
+
 // installProbeHooks installs the lock probe and PRNG-driven yield injection.
 // A send is flagged "under lock" only when the lock stays held across two
 // consecutive probes between which no tracked API call was in flight: the only
@@ -66,6 +95,19 @@ func installProbeHooks(a *apiTrack, st *probeStats, seed int64, yield bool) {
 		},
 		Send: func(lockFree func() bool) {
 			atomic.AddInt64(&st.sends, 1)
+			if atomic.LoadInt32(&gateErrorSends) == 1 && callerIs("sendError") {
+				// requested by a case: whoever sends an ERROR is held right before its select until the case
+				// lets go (a place where the scheduler may leave the sender for any length of time)
+				if g, _ := sendGate.Load().(*errGate); g != nil {
+					g.hitOnce.Do(func() { close(g.hit) })
+					<-g.open
+				}
+			}
+			if d := atomic.LoadInt32(&sendDelayUS); d > 0 {
+				// requested by a case: every send is preceded by a pause (a scheduling point that exists:
+				// the sender may be descheduled right before its select)
+				time.Sleep(time.Duration(d) * time.Microsecond)
+			}
 			// Instant, timing-free witness: no tracked API call was in flight over the whole
 			// probe (finished read before, started read after, equal) and yet the lock is held:
 			// the only other user of the lock is the reader goroutine, i.e. this sender.
